@@ -517,6 +517,20 @@ def run(case, want):
     res["stats"]["fix_calls"] = eff.fix_calls if eff else inst.reach.get("fix", 0)
     res["stats"]["events"] = len(eff.events) if eff else 0
 
+    # Root-cause discipline: once an application has broken the code / comment lexeme sequence (text and
+    # model no longer say the same thing), later events of the same run are consequences, not
+    # mechanisms of their own.  Events after the first such application are not judged by C01 C02 C03 C07.
+    taint_at = None
+    if eff and lex_ok and want & {"C01", "C02", "C03", "C07"}:
+        for i, ev in enumerate(eff.events):
+            if not ev["changed"]:
+                continue
+            if effects.check_rule_code_effect(ev["rule"], ev["before"], ev["after"]) or c02_compare(ev["rule"], True, vlex.comments(ev["before"]), vlex.comments(ev["after"])) in ("changed", "lost", "duplicated-or-invented", "reordered"):
+                taint_at = i
+                break
+    judged = eff.events[: taint_at + 1] if (eff and taint_at is not None) else (eff.events if eff else [])
+    res["stats"]["tainted_runs"] = 1 if taint_at is not None else 0
+
     if "C19" in want:
         v = []
         if crash:
@@ -526,7 +540,7 @@ def run(case, want):
     if "C01" in want:
         v = []
         if lex_ok:
-            for ev in eff.events:
+            for ev in judged:
                 if not ev["changed"]:
                     continue
                 bad = effects.check_rule_code_effect(ev["rule"], ev["before"], ev["after"])
@@ -549,7 +563,7 @@ def run(case, want):
         removed = 0
         if lex_ok:
             ncom = len(vlex.comments(eff.initial))
-            for ev in eff.events:
+            for ev in judged:
                 if not ev["changed"]:
                     continue
                 kb, ka = vlex.comments(ev["before"]), vlex.comments(ev["after"])
@@ -570,7 +584,7 @@ def run(case, want):
         v = []
         n_class = {}
         if lex_ok:
-            for ev in eff.events:
+            for ev in judged:
                 o = live.get(ev["rule"])
                 cfg_rule = {"fixable": o.fixable, "disable": o.disable, "severity_type": o.severity.type} if o else {"fixable": True, "disable": False, "severity_type": "error"}
                 cls = eval_c03(ev, cfg_rule)
@@ -589,7 +603,7 @@ def run(case, want):
     if "C07" in want:
         v = []
         n_apps = 0
-        for ev in eff.events:
+        for ev in judged:
             cls, det = eval_c07(ev)
             d = doc_class(ev["rule"])
             if ev["kind"] == "rule" and d and not ("structure" in d["icons"]) and d["icons"] & {"whitespace", "indent", "alignment", "case"} and ev["fixed"]:
